@@ -16,6 +16,7 @@ From SV Require Gen.BD.
 From SV Require Gen.BEi.
 From SV Require Gen.BE.
 From SV Require Gen.BF.
+From SV Require Gen.BG.
 From SV Require Proofs.C06_BE.
 From SV Require Proofs.C06_BF.
 Import ListNotations.
